@@ -21,6 +21,7 @@ import (
 	"errors"
 	"fmt"
 	"math"
+	"regexp"
 	"sort"
 	"strconv"
 	"strings"
@@ -459,6 +460,15 @@ func ParseRangesDecimal(s string, fracDigRequired uint8) (YangRange, error) {
 	return YangRange{}.parseChildRanges(s, true, fracDigRequired)
 }
 
+// rangeBoundary matches a boundary of a range or length restriction other than
+// min and max: an integer-value or a decimal-value of RFC 7950 section 14 (no
+// plus sign, no leading zeros, digits on both sides of a decimal point).
+var rangeBoundary = regexp.MustCompile(`^-?(0|[1-9][0-9]*)(\.[0-9]+)?$`)
+
+// optsep holds the characters that may surround a boundary (RFC 7950 section
+// 14: space, tab and line breaks).
+const optsep = " \t\r\n"
+
 // parseChildRanges parses a child ranges statement 's' into a series of ranges
 // based on an already-parsed parent YangRange. Each individual range is in s
 // is separated by the pipe character (|). The min and max value of a range are
@@ -483,18 +493,27 @@ func (y YangRange) parseChildRanges(s string, decimal bool, fracDigRequired uint
 			min := y[0].Min
 			min.FractionDigits = fracDigRequired
 			return min, nil
-		case decimal:
-			return ParseDecimal(s, fracDigRequired)
-		default:
-			return ParseInt(s)
 		}
+		var n Number
+		var err error
+		if decimal {
+			n, err = ParseDecimal(s, fracDigRequired)
+		} else {
+			n, err = ParseInt(s)
+		}
+		// The converters are more lenient than the grammar of a range
+		// (a plus sign, other bases, an empty side of the decimal point).
+		if err == nil && !rangeBoundary.MatchString(s) {
+			return Number{}, fmt.Errorf("%q is not a valid range boundary", s)
+		}
+		return n, err
 	}
 
 	parts := strings.Split(s, "|")
 	r := make(YangRange, len(parts))
 	for i, s := range parts {
 		parts := strings.Split(s, "..")
-		min, err := parseNumber(strings.TrimSpace(parts[0]))
+		min, err := parseNumber(strings.Trim(parts[0], optsep))
 		if err != nil {
 			return nil, err
 		}
@@ -503,7 +522,7 @@ func (y YangRange) parseChildRanges(s string, decimal bool, fracDigRequired uint
 		case 1:
 			max = min
 		case 2:
-			if max, err = parseNumber(strings.TrimSpace(parts[1])); err != nil {
+			if max, err = parseNumber(strings.Trim(parts[1], optsep)); err != nil {
 				return nil, err
 			}
 		default:
